@@ -239,6 +239,7 @@ class Hist:
             add(impl.DRAFT_FC[tag].checkers, "fmtdict")
             add(impl.DRAFT_FC[tag], "fc")
         self.user_dicts = []   # addresses of the caller's own dicts
+        self.passed = set()    # … those that were passed as `validators=` to create / extend
 
     def add(self, obj, kind, aux=None):
         self.heap.append(obj)
@@ -359,6 +360,7 @@ class Hist:
     def kwarg(self, ka):
         if ka[0] == "lit":
             return {k: KW_FN[f] for k, f in ka[1]}
+        self.passed.add(ka[1])
         return self.heap[ka[1]]
 
     def new_class(self, cls, fresh_tc):
@@ -492,38 +494,38 @@ def gen_kwarg(r, h, allow_empty):
 def gen_op(r, h):
     k = r.randrange(100)
     tcs, clss, fcs = h.of_kind("tc"), h.of_kind("cls"), h.of_kind("fc")
-    if k < 10:
+    if k < 8:
         return ["redefine", r.choice(tcs), r.choice(TYPE_NAMES), gen_ty(r)]
-    if k < 16:
+    if k < 13:
         return ["redefineMany", r.choice(tcs), [[r.choice(TYPE_NAMES), gen_ty(r)] for _ in range(r.choice([0, 1, 2, 3]))]]
-    if k < 24:
+    if k < 20:
         tc = r.choice(tcs)
         known = sorted(h.heap[tc]._type_checkers)
         names = [r.choice(known) if known and r.random() < 0.8 else r.choice(TYPE_NAMES) for _ in range(r.choice([1, 1, 2]))]
         return ["remove", tc, names]
-    if k < 46:
+    if k < 40:
         version = r.choice(VERSIONS + ["der-x"]) if r.random() < 0.2 else None
         tc = r.choice(tcs) if r.random() < 0.3 else None
         return ["extend", r.choice(clss), gen_kwarg(r, h, True), version, tc]
-    if k < 56:
+    if k < 50:
         version = r.choice(VERSIONS) if r.random() < 0.35 else None
         meta = r.choice(CUSTOM_METAS) if r.random() < 0.85 else impl.DRAFTS[r.choice(DRAFT_TAGS)].META_SCHEMA
         dt = gen_legacy(r) if r.random() < 0.3 else None
         tc = r.choice(tcs) if r.random() < (0.15 if dt else 0.5) else None
         return ["create", meta, gen_kwarg(r, h, False), version, dt, tc, r.choice(["$id", "id"])]
-    if k < 72:
+    if k < 64:
         schema = r.choice(SCHEMAS)[0]
         types = gen_legacy(r) if r.random() < 0.4 else []
         fc = r.choice(fcs) if r.random() < 0.6 else None
         return ["newValidator", r.choice(clss), schema, types, fc]
-    if k < 82:
+    if k < 74:
         fn = r.choice(list(FMT_FN))
         raises = r.choice([[], [], ["ValueError"], ["AddressValueError"]])
         return ["checks", r.choice(fcs), r.choice(FMT_NAMES), fn, raises]
-    if k < 87:
+    if k < 79:
         fn = r.choice(list(FMT_FN))
         return ["clsChecks", r.choice(FMT_NAMES[:6]), fn, r.choice([[], ["ValueError"]])]
-    if k < 94:
+    if k < 86:
         if r.random() < 0.5:
             return ["newFormatChecker", None]
         known = sorted(F.FormatChecker.checkers)
@@ -531,7 +533,9 @@ def gen_op(r, h):
         return ["newFormatChecker", names]
     if not h.user_dicts or r.random() < 0.5:
         return ["userDict", gen_kws(r, h)]
-    return ["userSet", r.choice(h.user_dicts), r.choice(KW_KEYS), r.choice(["fail:x", "fail:z", "never", "type"])]
+    passed = [d for d in h.user_dicts if d in h.passed]
+    d = r.choice(passed) if passed and r.random() < 0.7 else r.choice(h.user_dicts)
+    return ["userSet", d, r.choice(KW_KEYS), r.choice(["fail:x", "fail:z", "never", "type"])]
 
 
 OP_LABEL = {"redefine": "redefine", "redefineMany": "redefine_many", "remove": "remove", "extend": "extend",
